@@ -48,9 +48,12 @@ def input_block(frames, tstates, compress, use_repeat):
     return bytes([0x80]) + dword(5 + len(body)) + body
 
 
-def build(snapshot_data, ext, frames, compress=True, use_repeat=False, tstates=0):
-    return b'RZX!' + bytes([0, 13]) + dword(0) + creator_block() + snapshot_block(snapshot_data, ext, compress) + \
-        input_block(frames, tstates, compress, use_repeat)
+def build(snapshot_data, ext, frames, compress=True, use_repeat=False, tstates=0, split=None):
+    """split: index at which the frames are divided between two consecutive input recording blocks."""
+    head = b'RZX!' + bytes([0, 13]) + dword(0) + creator_block() + snapshot_block(snapshot_data, ext, compress)
+    if split and 0 < split < len(frames):
+        return head + input_block(frames[:split], tstates, compress, use_repeat) + input_block(frames[split:], 0, compress, use_repeat)
+    return head + input_block(frames, tstates, compress, use_repeat)
 
 
 def parse(data):
